@@ -444,6 +444,18 @@ impl<'de> Deserializer<'de> {
         self.input.set_position(end as u64);
         Ok(res)
     }
+    /// Length prefix of a value read as a whole byte string. The wire type must be
+    /// `vec nat8`; a vector of any other element type coerces only when it is empty.
+    fn read_blob_len(&mut self) -> Result<usize> {
+        let is_blob = *self.wire_type == TypeInner::Vec(TypeInner::Nat8.into());
+        check!(
+            is_blob || matches!(self.wire_type.as_ref(), TypeInner::Vec(_)),
+            "vec nat8"
+        );
+        let len = self.read_len()?;
+        check!(is_blob || len == 0, "vec nat8");
+        Ok(len)
+    }
     fn check_subtype(&mut self) -> Result<()> {
         self.add_cost(self.table.0.len())?;
         subtype_with_config(
@@ -1247,11 +1259,10 @@ impl<'de> de::Deserializer<'de> for &mut Deserializer<'de> {
     fn deserialize_byte_buf<V: Visitor<'de>>(self, visitor: V) -> Result<V::Value> {
         self.unroll_type()?;
         check!(
-            *self.expect_type == TypeInner::Vec(TypeInner::Nat8.into())
-                && *self.wire_type == TypeInner::Vec(TypeInner::Nat8.into()),
+            *self.expect_type == TypeInner::Vec(TypeInner::Nat8.into()),
             "vec nat8"
         );
-        let len = self.read_len()?;
+        let len = self.read_blob_len()?;
         self.add_cost(len.saturating_add(1))?;
         let bytes = self.borrow_bytes(len)?.to_owned();
         visitor.visit_byte_buf(bytes)
@@ -1261,7 +1272,7 @@ impl<'de> de::Deserializer<'de> for &mut Deserializer<'de> {
         match self.expect_type.as_ref() {
             TypeInner::Principal => self.deserialize_principal(visitor),
             TypeInner::Vec(t) if **t == TypeInner::Nat8 => {
-                let len = self.read_len()?;
+                let len = self.read_blob_len()?;
                 self.add_cost(len.saturating_add(1))?;
                 let slice = self.borrow_bytes(len)?;
                 visitor.visit_borrowed_bytes(slice)
